@@ -159,24 +159,31 @@ theorem Good.addName {st : St} (h : Good st) (f : Nat) (b : Binding) :
     simp only [St.addName, St.fsk]
     split
     · rfl
-    · dsimp only
-      apply map_modifyAt_same
-      intro x; rfl
+    · split <;>
+      · dsimp only
+        apply map_modifyAt_same
+        intro x; rfl
   have hssk : (st.addName f b).ssk = st.ssk := by
     simp only [St.addName, St.ssk]
     split
     · rfl
-    · dsimp only
-      apply map_modifyAt_same
-      intro x; rfl
+    · split
+      · rfl
+      · dsimp only
+        apply map_modifyAt_same
+        intro x; rfl
   have hcur : (st.addName f b).cur = st.cur := by
     simp only [St.addName]
-    split <;> rfl
+    split
+    · rfl
+    · split <;> rfl
   refine ⟨⟨basic_preserved.addName st f b h.basic, ?_, by rw [hfsk, hssk, hcur]; exact h.struct⟩, hfsk, hcur⟩
   simp only [St.addName]
   split
   · exact namesOK_global h.names _ rfl _ rfl rfl (by simp)
-  · exact namesOK_insert h.names f _ rfl _ rfl rfl (by simp)
+  · split
+    · exact namesOK_insert h.names f _ rfl _ rfl rfl (by simp)
+    · exact namesOK_insert h.names f _ rfl _ rfl rfl (by simp)
 
 theorem Good.compName {st : St} (h : Good st) (f : Nat) (b : Binding) :
     Good (st.compName f b) ∧ (st.compName f b).fsk = st.fsk ∧ (st.compName f b).cur = st.cur := by
@@ -232,6 +239,10 @@ theorem Good.scopesSame {st st' : St} (h : Good st) (hb : Basic st') (hf : st'.f
 theorem Good.globalDecl {st : St} (h : Good st) (ns : List String) : Good (st.globalDecl ns) :=
   h.scopesSame (basic_preserved.globalDecl st ns h.basic) rfl
     (by simp only [St.globalDecl, St.ssk]; apply map_modifyAt_same; intro x; rfl) rfl rfl rfl
+
+theorem Good.nonlocalDecl {st : St} (h : Good st) (ns : List String) : Good (st.nonlocalDecl ns) :=
+  h.scopesSame (basic_preserved.nonlocalDecl st ns h.basic) rfl
+    (by simp only [St.nonlocalDecl, St.ssk]; apply map_modifyAt_same; intro x; rfl) rfl rfl rfl
 
 theorem Good.addReturn {st : St} (h : Good st) : Good st.addReturn :=
   h.scopesSame (basic_preserved.addReturn st h.basic) rfl
